@@ -4,8 +4,11 @@ name=$1; prop=${2:-${name%%-*}}
 cd /repo || exit 2
 if [ -n "$(git status --porcelain)" ]; then echo "/repo not clean"; exit 2; fi
 git apply /verif/seeded/$name/patch.diff || { echo "patch does not apply"; exit 2; }
+cp /verif/evidence/$prop.json /tmp/evidence-keep-$prop.json 2>/dev/null
 /verif/bin/check $prop quick > /tmp/seedrun-$name.log 2>&1; rc=$?
 git checkout -- . ; git clean -fdq
+# the evidence file must describe the unchanged tree: put the previous one back
+cp /tmp/evidence-keep-$prop.json /verif/evidence/$prop.json 2>/dev/null; rm -f /tmp/evidence-keep-$prop.json
 nv=$(grep -c '^VIOLATION' /tmp/seedrun-$name.log)
 echo "$name -> check $prop rc=$rc violations=$nv"
 grep '^VIOLATION' /tmp/seedrun-$name.log | sed 's/replay=[^ ]* //' | head -4
